@@ -1,0 +1,147 @@
+//go:build verif
+
+package health
+
+import (
+	"context"
+	"net/http"
+	"time"
+
+	v1 "github.com/fatedier/frp/pkg/config/v1"
+	"github.com/fatedier/frp/verif"
+)
+
+// C19 "a health-checked proxy is not registered before its first successful
+// probe, is withdrawn after exactly the configured number of consecutive failed
+// probes - never fewer, a success restarts the count - and is registered again
+// after the next success; a probe exceeding its timeout or, for http, a non-2xx
+// answer counts as failed".
+
+// NewMonitor: the monitor starts unhealthy with no failure counted, and the
+// limits are the configured ones (defaults 10 s / 3 s / 1 when not positive).
+//
+//verif:contract ~/client/health.NewMonitor
+//verif:props C19
+func verif_NewMonitor(ctx context.Context, cfg v1.HealthCheckConfig, addr string, okFn func(), failFn func()) {
+	m := NewMonitor(ctx, cfg, addr, okFn, failFn)
+	verif.Ensures(m != nil && !m.statusOK && m.failedTimes == 0, "starts_unhealthy_nothing_counted")
+	verif.Ensures(m.maxFailedTimes >= 1 && (cfg.MaxFailed <= 0 || m.maxFailedTimes == cfg.MaxFailed), "max_failed_as_configured_at_least_one")
+	verif.Ensures(m.timeout > 0 && (cfg.TimeoutSeconds <= 0 || m.timeout == time.Duration(cfg.TimeoutSeconds)*time.Second), "timeout_as_configured")
+	verif.Ensures(m.interval > 0 && (cfg.IntervalSeconds <= 0 || m.interval == time.Duration(cfg.IntervalSeconds)*time.Second), "interval_as_configured")
+	verif.Ensures(m.checkType == cfg.Type && m.addr == addr, "probe_target_as_configured")
+}
+
+// The callbacks are the wrapper's status callbacks: unknown code here. Assumed
+// frame (listed in the evidence): they do not touch the monitor's own fields.
+//
+//verif:fieldfn Monitor statusNormalFn
+func verifSpec_statusNormalFn() { verif.HavocExcept("H.client.health.Monitor.") }
+
+//verif:fieldfn Monitor statusFailedFn
+func verifSpec_statusFailedFn() { verif.HavocExcept("H.client.health.Monitor.") }
+
+const (
+	evProbe    = "Monitor).doCheck"
+	evNormalFn = "fieldfn:H.client.health.Monitor.statusNormalFn"
+	evFailedFn = "fieldfn:H.client.health.Monitor.statusFailedFn"
+)
+
+//verif:pure
+func verifHeadFailed(m *Monitor) uint64 { return m.failedTimes }
+
+//verif:pure
+func verifHeadOK(m *Monitor) bool { return m.statusOK }
+
+// One completed iteration of the probe loop (arbitrary iteration, loop cut at
+// its head; failed0 / ok0 are the counter and the verdict at the start of the
+// iteration). The counter is the number of consecutive failures: a success
+// sets it to zero, a failure adds one. The verdict changes to healthy exactly
+// on a success while unhealthy, and to unhealthy exactly when a failure while
+// healthy brings the counter to maxFailedTimes; the matching callback runs
+// exactly then. Every probe runs under a deadline of now+timeout.
+//
+//verif:loopbody (*~/client/health.Monitor).checkWorker 1 check=verifProbeStep args=monitor head=verifHeadFailed,verifHeadOK
+func verifProbeStep(m *Monitor, failed0 uint64, ok0 bool) bool {
+	if !verif.CalledInIter(evProbe) {
+		return false
+	}
+	deadlineOK := verif.CalledInIter("context.WithDeadline") &&
+		verif.IterArg[time.Duration]("Time).Add", 1) == m.timeout &&
+		verif.Same(verif.IterArg[time.Time]("context.WithDeadline", 1), verif.IterRet[time.Time]("Time).Add", 0)) &&
+		verif.Same(verif.IterArg[context.Context](evProbe, 1), verif.IterRet[context.Context]("context.WithDeadline", 0))
+	if !deadlineOK {
+		return false
+	}
+	err := verif.IterRet[error](evProbe, 0)
+	if err == nil {
+		becomesHealthy := !ok0 && m.statusNormalFn != nil
+		return m.failedTimes == 0 &&
+			m.statusOK == (ok0 || becomesHealthy) &&
+			verif.CalledInIter(evNormalFn) == becomesHealthy &&
+			!verif.CalledInIter(evFailedFn)
+	}
+	withdrawn := ok0 && int(failed0+1) >= m.maxFailedTimes && m.statusFailedFn != nil
+	return m.failedTimes == failed0+1 &&
+		m.statusOK == (ok0 && !withdrawn) &&
+		verif.CalledInIter(evFailedFn) == withdrawn &&
+		!verif.CalledInIter(evNormalFn)
+}
+
+// The limits do not change while the monitor runs.
+//
+//verif:loop (*~/client/health.Monitor).checkWorker 1 inv=verifProbeInv args=monitor
+func verifProbeInv(m *Monitor) bool { return m.maxFailedTimes >= 1 }
+
+//verif:contract (*~/client/health.Monitor).checkWorker
+//verif:props C19
+func verif_checkWorker(m *Monitor) {
+	verif.Requires(m.maxFailedTimes >= 1, "constructed_by_NewMonitor")
+	verif.ResetEvents()
+	m.checkWorker()
+}
+
+// "for http, a non-2xx answer counts as failed"; the request carries the
+// probe's deadline context.
+//
+//verif:contract (*~/client/health.Monitor).doHTTPCheck
+//verif:props C19
+func verif_doHTTPCheck(m *Monitor, ctx context.Context) {
+	verif.ResetEvents()
+	err := m.doHTTPCheck(ctx)
+	verif.Ensures(verif.CalledWith("http.NewRequestWithContext", 0, ctx), "request_under_the_probe_deadline")
+	if err == nil {
+		verif.Ensures(verif.Called("Client).Do") && verif.RetErr("Client).Do", 1) == nil, "success_needs_an_answer")
+		verif.Ensures(verif.Ret[*http.Response]("Client).Do", 0).StatusCode/100 == 2, "success_needs_2xx")
+	}
+}
+
+// tcp: success iff the dial under the probe's deadline context succeeded.
+//
+//verif:contract (*~/client/health.Monitor).doTCPCheck
+//verif:props C19
+func verif_doTCPCheck(m *Monitor, ctx context.Context) {
+	verif.ResetEvents()
+	err := m.doTCPCheck(ctx)
+	if m.addr != "" {
+		verif.Ensures(verif.CalledWith("Dialer).DialContext", 1, ctx) && verif.CalledWith("Dialer).DialContext", 3, m.addr), "dial_under_the_probe_deadline")
+		verif.Ensures((err == nil) == (verif.RetErr("Dialer).DialContext", 1) == nil), "success_iff_dial_succeeded")
+	}
+}
+
+// doCheck dispatches on the configured type; an unknown type is a failure.
+//
+//verif:contract (*~/client/health.Monitor).doCheck
+//verif:props C19
+func verif_doCheck(m *Monitor, ctx context.Context) {
+	verif.ResetEvents()
+	err := m.doCheck(ctx)
+	if m.checkType != "tcp" && m.checkType != "http" {
+		verif.Ensures(err != nil, "unknown_probe_type_fails")
+	}
+	if m.checkType == "http" {
+		verif.Ensures(verif.CalledWith("Monitor).doHTTPCheck", 1, ctx) && err == verif.RetErr("Monitor).doHTTPCheck", 0), "http_probe_verdict")
+	}
+	if m.checkType == "tcp" {
+		verif.Ensures(verif.CalledWith("Monitor).doTCPCheck", 1, ctx) && err == verif.RetErr("Monitor).doTCPCheck", 0), "tcp_probe_verdict")
+	}
+}
